@@ -1,5 +1,34 @@
-(* C06 - placeholder until ConcInv.v is delivered *)
-From LC Require Import Conc.
-Theorem C06_model_initial_state_idle : forall hp rc arrs t, thr (ginit hp rc arrs) t = Idle.
-Proof. reflexivity. Qed.
-Print Assumptions C06_model_initial_state_idle.
+(* C06 - an active locked_table owns the table exclusively: the protocol statements.
+   A thread in state AH is an active locked_table (or a resize in progress).
+   Statements only; closed by [exact] of lemmas of ConcInv.v. *)
+From Coq Require Import NArith List.
+From LC Require Import Conc ConcInv.
+Import ListNotations.
+
+Theorem C06_section_exclusive : forall hp0 rc0 arrs0, arrs_ok arrs0 -> forall s, reachable hp0 rc0 arrs0 s ->
+  forall t first d, thr s t = AH first d -> forall t', t' <> t -> ~ validated (thr s t') /\ ~ all_holder (thr s t').
+Proof. exact all_holder_exclusive. Qed.
+Print Assumptions C06_section_exclusive.
+
+(* growth inside the section never releases ownership: whatever the section did, it still owns every
+   lock of every array (EMPLACE creates the new array already owned) *)
+Theorem C06_growth_keeps_ownership : forall hp0 rc0 arrs0, arrs_ok arrs0 -> forall s, reachable hp0 rc0 arrs0 s ->
+  forall t first d, thr s t = AH first d ->
+  d = g_dirty (sh_ s) /\ first + 1 <= g_narr0 (sh_ s) /\ g_narr0 (sh_ s) <= narr (sh_ s) /\ (forall a l, first <= a -> a < narr (sh_ s) -> l < asz (sh_ s) a -> g_held (sh_ s) a l = Some t).
+Proof. exact all_holder_facts. Qed.
+Print Assumptions C06_growth_keeps_ownership.
+
+(* operations that were blocked (or had taken their snapshot) before the section observe the state
+   the section left: the section cannot release while a write is unpublished, and any thread that
+   validates afterwards has the current size and generation *)
+Theorem C06_section_publishes_before_release : forall hp0 rc0 arrs0, arrs_ok arrs0 -> forall s, reachable hp0 rc0 arrs0 s ->
+  forall t first d a l s', thr s t = AH first d -> gstep s t (UNLOCK a l) = Some s' ->
+  d = false /\ g_dirty (sh_ s) = false /\ g_hp (sh_ s) = g_hp0 (sh_ s) /\ narr (sh_ s) = g_narr0 (sh_ s).
+Proof. exact release_only_after_bump. Qed.
+Print Assumptions C06_section_publishes_before_release.
+
+Theorem C06_later_operations_see_the_state_left : forall hp0 rc0 arrs0, arrs_ok arrs0 -> forall s, reachable hp0 rc0 arrs0 s ->
+  forall t sn sa x r, thr s t = CS sn sa (x :: r) \/ (exists l, thr s t = CW sn sa (x :: r) l) ->
+  sc sn = g_rc (sh_ s) /\ sh sn = g_hp (sh_ s) /\ sa + 1 = narr (sh_ s) /\ g_dirty (sh_ s) = false /\ (forall y, In y (x :: r) -> g_held (sh_ s) sa y = Some t /\ y < asz (sh_ s) sa) /\ (forall t', ~ all_holder (thr s t')).
+Proof. exact validated_current. Qed.
+Print Assumptions C06_later_operations_see_the_state_left.
